@@ -566,3 +566,109 @@ theorem C13_chunk_witness_raw_newline :
 
 example : readLinesChunked [[123], [125, 10, 91], [93], [10]] = [[123, 125], [91, 93]] := by decide
 example : readSSEChunked [[100, 97], [116, 97, 58, 120, 10], [10, 100]] = [[120]] := by decide
+
+/-! ## ===== round 5 (deepening): progress of the gwsStream hand-off — `ServeHTTP`'s epilogue is reached =====
+
+  Threads: the handler (`Forward` … `closeGracefully` … `close(done)` … `wg.Wait()`), the forwarder inside
+  `Forward` (calls `Recv`), the read-loop goroutine (`ReadLoop` → `OnMessage` → `select { events <- ev; <-done }`,
+  `defer cancel()`). ENVIRONMENT ASSUMPTIONS (all in `internalAt` / `isEnv`, Model.lean): the forwarder calls
+  `Recv` in a loop for client streaming and once otherwise, and `Forward` returns when no `Recv` is in
+  progress (`closeDone`; ProxyForwarder, C01/C02); after the close frame the read deadline `wsCloseTimeout`
+  makes `ReadLoop` return (`readerExit` is internal once `done`); writes to the client (`Send`,
+  `closeGracefully`) are bounded by the same deadline and are not part of this LTS. -/
+
+/-- Deadlock freedom over ALL reachable states (every interleaving of client writes, read loop, `Recv`,
+    cancellation, close): while `ServeHTTP` has not returned, some move that needs nobody outside the bridge is
+    enabled — or the call is in the one legitimate waiting state, `Recv` waiting for a frame of a silent,
+    still connected client with an idle read loop (`awaitingClient`), from which the client can always move. -/
+theorem C13_ws_no_deadlock (cfg : Cfg) (s : St) (h : GB.LTS.Reachable (step cfg) init s) (hr : returned s = false) :
+    (∃ l, internalAt s l = true ∧ (step cfg s l).isSome = true) ∨ awaitingClient s = true :=
+  no_deadlock cfg s h hr
+
+/-- The variant: every move except the environment's (`clientSend`, `cancel`) strictly decreases `rank` —
+    from any state at most `rank s` moves can happen without new input: no livelock, no unbounded
+    `Recv`/`OnMessage` ping-pong. (No reachability needed.) -/
+theorem C13_ws_rank_decreases (cfg : Cfg) (s : St) (l : Lbl) (s' : St) (hl : isEnv l = false)
+    (hs : step cfg s l = some s') : rank s' < rank s :=
+  rank_decreases cfg s l s' hl hs
+
+/-- The epilogue is reached. From any reachable state, let the bridge run under ANY scheduler without further
+    client input until nothing internal is enabled (`ls` is such a maximal run): it takes at most `rank s`
+    moves and ends either with `ServeHTTP` returned or waiting for the client; and if the call was cancelled
+    (the client closed or dropped the socket — `readerExit` cancels — or the request context ended) it ends
+    with `ServeHTTP` returned. -/
+theorem C13_ws_epilogue_reached (cfg : Cfg) (s s' : St) (ls : List Lbl)
+    (h : GB.LTS.Reachable (step cfg) init s) (hrun : GB.LTS.run (step cfg) s ls = some s')
+    (hint : ∀ l ∈ ls, isEnv l = false)
+    (hmax : ∀ l, internalAt s' l = true → step cfg s' l = none) :
+    ls.length ≤ rank s ∧ (returned s' = true ∨ awaitingClient s' = true) ∧
+    (s'.cancelled = true → returned s' = true) := by
+  have hb := run_bounded cfg ls s s' hrun hint
+  have hreach := GB.LTS.run_reachable (step cfg) init s ls h hrun
+  have hfin : returned s' = true ∨ awaitingClient s' = true := by
+    cases hr : returned s' with
+    | true => exact Or.inl rfl
+    | false =>
+      rcases no_deadlock cfg s' hreach hr with ⟨l, hl, hen⟩ | hw
+      · rw [hmax l hl] at hen; simp at hen
+      · exact Or.inr hw
+  refine ⟨by omega, hfin, ?_⟩
+  intro hc
+  rcases hfin with hr | hw
+  · exact hr
+  · simp [awaitingClient, hc] at hw
+
+/-- Once the handler has closed `done`, nothing waits for the client any more: every maximal internal run ends
+    with `ServeHTTP` returned (in at most `rank s` moves). -/
+theorem C13_ws_epilogue_after_done (cfg : Cfg) (s s' : St) (ls : List Lbl)
+    (h : GB.LTS.Reachable (step cfg) init s) (hd : s.done = true)
+    (hrun : GB.LTS.run (step cfg) s ls = some s') (hint : ∀ l ∈ ls, isEnv l = false)
+    (hmax : ∀ l, internalAt s' l = true → step cfg s' l = none) :
+    returned s' = true ∧ ls.length ≤ rank s := by
+  obtain ⟨hlen, hfin, _⟩ := C13_ws_epilogue_reached cfg s s' ls h hrun hint hmax
+  refine ⟨?_, hlen⟩
+  rcases hfin with hr | hw
+  · exact hr
+  · -- `done` is never reset
+    have hmono : ∀ (ls : List Lbl) (a b : St), GB.LTS.run (step cfg) a ls = some b → a.done = true → b.done = true := by
+      intro ls
+      induction ls with
+      | nil => intro a b hab; simp [GB.LTS.run] at hab; subst hab; exact id
+      | cons l rest ih =>
+        intro a b hab ha
+        simp only [GB.LTS.run] at hab
+        cases hs : step cfg a l with
+        | none => simp [hs] at hab
+        | some a1 =>
+          rw [hs] at hab
+          refine ih a1 b hab ?_
+          cases l <;> simp only [step] at hs
+          all_goals (repeat' (split at hs))
+          all_goals (first | (cases hs; simp_all) | simp_all)
+    have := hmono ls s s' hrun hd
+    simp [awaitingClient, this] at hw
+
+/-- Non-vacuity: a client-streaming call in which the target ends the stream while a second frame is being
+    offered — `Forward` returns, `close(done)` releases `OnMessage`, the read loop ends, `ServeHTTP` returns;
+    the run is maximal (nothing internal is enabled at its end). -/
+theorem C13_ws_epilogue_example :
+    let cfg : Cfg := { cs := true, body := true, expectBinary := false }
+    let f1 : Frame := { binary := false, malformed := false, text := [1] }
+    let f2 : Frame := { binary := false, malformed := false, text := [2] }
+    ((GB.LTS.run (step cfg) init [.clientSend f1, .clientSend f2, .recvCall, .read, .handoff, .finishOnMessage, .read,
+        .closeDone, .onDone, .finishOnMessage, .readerExit]).map
+      (fun s => (returned s, s.delivered, rank s,
+        [Lbl.read, .handoff, .onDone, .finishOnMessage, .recvCall, .recvClosed, .recvCtx, .closeDone, .readerExit].all
+          (fun l => (step cfg s l).isNone)))) = some (true, [f1], 2, true) := by
+  decide
+
+/-- …and the waiting state is real: with a silent client the call stands in `awaitingClient` (nothing internal
+    enabled), and the client closing the socket leads to `Recv` returning the context error. -/
+theorem C13_ws_awaiting_client_example :
+    let cfg : Cfg := { cs := true, body := true, expectBinary := false }
+    ((GB.LTS.run (step cfg) init [.recvCall]).map (fun s => (awaitingClient s,
+        [Lbl.read, .handoff, .onDone, .finishOnMessage, .recvCall, .recvClosed, .recvCtx, .closeDone].all (fun l => (step cfg s l).isNone)))
+      = some (true, true)) ∧
+    ((GB.LTS.run (step cfg) init [.recvCall, .readerExit, .recvCtx, .closeDone]).map (fun s => (returned s, s.result))
+      = some (true, some .ctx)) := by
+  decide
